@@ -63,7 +63,6 @@ Definition s_step (cfg : bconfig) (s : sstate) (e : event) : sstate :=
            (x :: s_open s) []
   | EEnd name prefix =>
       let s := s_flush cfg s None in
-      if str_eqb name (c_root cfg) then s else
       match close_through s name prefix (s_open s) with
       | Some rest => mkss (s_nodes s) rest (s_pending s)
       | None => s                        (* no such element is open: ignored *)
